@@ -91,7 +91,9 @@ def _check_ops(spec, res):
     em = mesh.edge_mesh
     n = len(mesh.sites)
     e0, e1 = em.edges[:, 0], em.edges[:, 1]
-    A = np.stack([meshgen.make_field(spec["A"][0], em.centers), meshgen.make_field(spec["A"][1], em.centers)], axis=1) * spec["ascale"]
+    # potential in units of 1/(mean edge length): the link phases A.e stay O(1..10) rad whatever the coordinate scale of the
+    # mesh (with phases of 1e7 rad the rounding of the phase itself, 1e-16 x 1e7, would exceed the tolerance)
+    A = np.stack([meshgen.make_field(spec["A"][0], em.centers), meshgen.make_field(spec["A"][1], em.centers)], axis=1) * spec["ascale"] / em.edge_lengths.mean()
     chi = meshgen.make_field(spec["chi"][0], mesh.sites) * spec["chiscale"]
     psi = (1 + 0.5 * meshgen.make_field(spec["psi"][0], mesh.sites)) * np.exp(1j * 2 * meshgen.make_field(spec["psi"][1], mesh.sites))
     # Documented convention: link variable U_ij = exp(-i A.e_ij) multiplying psi_j, covariant derivative
